@@ -179,11 +179,13 @@ DiscoverCloses(a, b) ==
 \* (a node that is not root first turns its friends into orphans -- request none -- and then looks for
 \* parents and uncles among the orphans, the former friends included)
 Demoted(a) == IF IsRoot(role[a]) THEN loc[a]
-              ELSE [loc[a] EXCEPT !.ct = [b \in Nodes |-> IF loc[a].ct[b] = "friend" THEN "none" ELSE loc[a].ct[b]]]
+              ELSE LET fr == {b \in Nodes : loc[a].ct[b] = "friend"}
+                   IN [loc[a] EXCEPT !.ct = [b \in Nodes |-> IF b \in fr THEN "none" ELSE loc[a].ct[b]],
+                                     !.trans = @ \ fr, !.rej = @ \ fr]   \* updatePeerConnectionType forgets both marks
 Tick(a) == [req |-> {<<b, t>> \in Peers(a) \X {"friend", "parent", "uncle", "none"} :
                        /\ b \notin closed[a]
                        /\ IF t = "none" THEN Seeks(a, b, t) ELSE SeeksL(Demoted(a), a, b, t)
-                       /\ (t # "none" => (b \notin loc[a].trans /\ b \notin loc[a].rej))},
+                       /\ (t # "none" => (b \notin Demoted(a).trans /\ b \notin Demoted(a).rej))},
             close |-> {b \in Peers(a) : b \notin closed[a] /\ DiscoverCloses(a, b)}]
 
 \* ---- history
